@@ -117,7 +117,7 @@ def update_on_removal_harness(ctx):
     """_modify.remove:_update_functions_aux_data(cache, block, next_block) -- from the statement of C06: deleting an entry block promotes
     the next block only if it is in the SAME function; the block leaves its function; a function that lost all its blocks disappears
     from all three tables; entries stay a subset of blocks; other functions are untouched.
-    E over: block is an entry or not x the function has other blocks or not x next block is absent / data / code in the same function /
+    E over: block is an entry or not x the function has other blocks or not (and then a second entry or not) x next block is absent / data / code in the same function /
     code in another function / code in NO function x the real ModifyCache."""
     import importlib
     RM = importlib.import_module("gtirb_rewriting._modify.remove")
@@ -145,6 +145,9 @@ def update_on_removal_harness(ctx):
             return                                   # a function whose only block is not its entry: the entry `first` is another block
         fblocks.add(first)
     f = add_function(m, add_symbol(m, "f", entry), entry, fblocks - {entry})
+    if has_others and ctx.choose(2, "function-has-a-second-entry"):
+        # functions with several entry blocks exist (functionEntries is a set): the others stay entries whatever happens to this one
+        _auxdata.function_entries.get(m)[f].add(extra)
     gset = {gblk} | ({nxt} if nk == "other-function" else set())
     g = add_function(m, add_symbol(m, "g", gblk), gblk, gset - {gblk})
     fl = gtirb_functions.Function.build_functions(m)
